@@ -678,7 +678,23 @@ Lemma guards_dominate_full :
   hwrite_success_exits_before_guard = 0 /\
   hwrite_stores_before_guard = 0 /\
   htrunc_success_exits_before_guard = 0 /\
-  htrunc_stores_before_guard = 0.
+  htrunc_stores_before_guard = 0 /\
+  sdcreate_registers_before_guard = 0 /\
+  sdsetdimname_registers_before_guard = 0 /\
+  sdsetrange_registers_before_guard = 0 /\
+  sdsetattr_registers_before_guard = 0 /\
+  sdsetdatastrs_registers_before_guard = 0 /\
+  sdsetcal_registers_before_guard = 0 /\
+  sdsetfillvalue_registers_before_guard = 0 /\
+  sdsetdimstrs_registers_before_guard = 0 /\
+  sdsetdimscale_registers_before_guard = 0 /\
+  sdsetdimval_comp_registers_before_guard = 0 /\
+  sdwritedata_registers_before_guard = 0 /\
+  sdsetexternalfile_registers_before_guard = 0 /\
+  sdsetcompress_registers_before_guard = 0 /\
+  sdsetchunk_registers_before_guard = 0 /\
+  sdsetnbitdataset_registers_before_guard = 0 /\
+  sdwritechunk_registers_before_guard = 0.
 Proof. repeat split; reflexivity. Qed.
 
 (** Hopen of an already open path: the write bit is given to the shared record after the reopen has been attempted
